@@ -20,7 +20,17 @@ def rand_burst(r, gen):
 	if k < 0.55:
 		kind = r.choice(("NB", "SB", "AB"))
 		t = r.choice(sorted(tscref.TABLES[kind]))
-		return "ref-%s-%d" % (kind, t), tscref.place(kind, t, r)
+		b = tscref.place(kind, t, r)
+		if r.random() < 0.25:
+			# the payload repeats a training sequence (its own, or another code's) somewhere else in the burst:
+			# only the one at the defined position counts
+			seq = tscref.bits(tscref.TABLES[kind][t if r.random() < 0.6 else r.choice(sorted(tscref.TABLES[kind]))])
+			pos = r.choice([p for p in (0, 3, 10, 35, 45, 148 - len(seq)) if p + len(seq) <= tscref.POS[kind] + 16 or p >= tscref.POS[kind] + len(seq)] or [0])
+			bb = bytearray(b)
+			bb[pos:pos + len(seq)] = seq
+			bb[tscref.POS[kind]:tscref.POS[kind] + len(seq)] = tscref.bits(tscref.TABLES[kind][t])
+			b = bytes(bb)
+		return "ref-%s-%d" % (kind, t), b
 	# the toolkit's own burst generator
 	which = r.choice(("nb", "sb", "ab", "fb", "db"))
 	b = bytes(getattr(gen, "gen_" + which)())
